@@ -19,6 +19,9 @@ class C02(SysBase):
 
     def corpus(self):
         return [self.mk(5, 16384, [40000, 5, 0, 30000], [("11111", "honest")], "corpus", True),
+                # a seeder that chokes just before the final block of every piece (still delivered) and unchokes 200 ms later
+                self.mk(8, 16384, [40000], [("111", "chokelast")], "corpus", True),
+                self.mk(9, 20000, [20000, 7], [("11", "chokelast"), ("01", "honest")], "corpus", True),
                 self.mk(6, 20000, [50000], [("101", "honest"), ("011", "slow"), ("111", "corrupt 3")], "corpus", True),
                 self.mk(7, 16384, [20000, 20000], [("111", "dropafter 4"), ("111", "honest")], "corpus", True),
                 # the witnesses of the two known findings
@@ -43,7 +46,7 @@ class C02(SysBase):
             for p in range(npeers):
                 bits = "".join("1" if x else "0" for x in have[p])
                 if p < honest:
-                    beh = rng.choice(["honest", "honest", "slow", "lateunchoke", "havelater %d" % rng.choice([0, 300, 3000])])
+                    beh = rng.choice(["honest", "honest", "slow", "lateunchoke", "havelater %d" % rng.choice([0, 300, 3000]), "chokelast"])
                 else:
                     beh = rng.choice(["dropafter %d" % rng.randrange(1, 9), "garbage %d" % rng.randrange(1, 6),
                                       "corrupt %d" % rng.randrange(1, 4), "dup", "honest"])
